@@ -239,11 +239,14 @@ structure LineItem where
   strand : Int
   region : Nat
   comps : List Comp
+  /-- the gene has hits but no module of its own (only docking/COM domains, or only motif hits):
+      it still separates its neighbours -/
+  barrier : Bool := false
 deriving Repr
 
 /-- may border modules of these two consecutive live genes be merged at all -/
 def mergeable (a b : LineItem) : Bool :=
-  b.index == a.index + 1 && a.region == b.region && a.strand == b.strand
+  b.index == a.index + 1 && a.region == b.region && a.strand == b.strand && !a.barrier && !b.barrier
 
 /-- the separator entry, if any, between the previous live gene and `x` -/
 def sepBefore (prev : Option LineItem) (x : LineItem) : List (Bool × List Comp) :=
@@ -251,7 +254,8 @@ def sepBefore (prev : Option LineItem) (x : LineItem) : List (Bool × List Comp)
   | some p => if mergeable p x then [] else [(false, [sepComp])]
   | none => []
 
-/-- the genes' entries for `lineGo`, with a separator entry between non-mergeable neighbours -/
+/-- the genes' entries for `lineGo`, with a separator entry between non-mergeable neighbours
+    (not direct neighbours, different region or strand, or one of them without any module) -/
 def interleave : Option LineItem → List LineItem → List (Bool × List Comp)
   | _, [] => []
   | prev, x :: xs => sepBefore prev x ++ (isReverse x.strand, x.comps) :: interleave (some x) xs
@@ -260,7 +264,8 @@ def interleave : Option LineItem → List LineItem → List (Bool × List Comp)
 def chainLine (items : List LineItem) : List Comp := lineGo (interleave none items) []
 
 def geneItems (genes : List Gene) : List LineItem :=
-  (genes.filter liveGene).map fun g => ⟨g.index, g.strand, g.region, keptComps g.name g.domains⟩
+  (genes.filter liveGene).map fun g =>
+    ⟨g.index, g.strand, g.region, keptComps g.name g.domains, (keptComps g.name g.domains).isEmpty⟩
 
 /-- the strengthened report check: as `chainLineOK`, against the line with separators, and no
     reported module contains a separator — so a cross-gene module only ever spans direct
@@ -269,7 +274,8 @@ def chainBlocksOK (genes : List Gene) (out : List (String × List (List Comp))) 
   let live := genes.filter liveGene
   let line := chainLine (geneItems genes)
   out.map (·.1) == live.map (·.name)
-  && (chainLine ((live.zip out).map fun (g, o) => ⟨g.index, g.strand, g.region, o.2.flatten⟩)).isSublist line
+  && (chainLine ((live.zip out).map fun (g, o) =>
+        ⟨g.index, g.strand, g.region, o.2.flatten, (keptComps g.name g.domains).isEmpty⟩)).isSublist line
   && out.all fun o => o.2.all fun m => isInfixB m line && !m.contains sepComp
 
 end ASV.Modules.Spec
